@@ -61,6 +61,28 @@ theorem no_caller_in_limbo (cap : Nat) (s : St) (hq : Quiescent true cap s)
   | fetched id => exact absurd (Step.callAbort s i c hi (by simp [hst, isWaiting]) rfl hd) (hq _)
   | done r => exact ⟨r, rfl⟩
 
+/-- **A call under a context that can end is never stranded**, on either variant of the
+    code, with the connection alive or not, answered or not: `asyncCall` and `call` select
+    on `ctx.Done()`.  This is what bounds `endpointClient.Close` (its shutdown call runs
+    under a 3 s deadline) against a peer that never answers, and what the second layer's
+    fact `shutdownHasTimeout` stands on.  Tunnel reads, writes and closes use
+    `context.TODO()` and do NOT have this escape: for them `transport_no_stranded` is needed. -/
+theorem cancellable_never_stranded (fx : Bool) (cap : Nat) (s : St) (hq : Quiescent fx cap s) :
+    ∀ c ∈ s.callers, c.cancellable = true → ∃ r, c.st = .done r := by
+  intro c hmem hctx
+  obtain ⟨i, hi⟩ := List.getElem?_of_mem hmem
+  cases hst : c.st with
+  | idle => exact absurd (Step.check s i c hi hst) (hq _)
+  | checked => exact absurd (Step.giveUp s i c hi (Or.inl hst) hctx) (hq _)
+  | queued => exact absurd (Step.giveUp s i c hi (Or.inr (by simp [hst, isWaiting])) hctx) (hq _)
+  | pending id => exact absurd (Step.giveUp s i c hi (Or.inr (by simp [hst, isWaiting])) hctx) (hq _)
+  | fetched id => exact absurd (Step.giveUp s i c hi (Or.inr (by simp [hst, isWaiting])) hctx) (hq _)
+  | done r => exact ⟨r, rfl⟩
+
+/-- … while on the pinned variant a call under `context.TODO()` can be (the stranded
+    callers of the counterexamples below are not cancellable) -/
+example : (⟨1, false, false, .idle, none⟩ : Caller).cancellable = false := rfl
+
 /-- closes the goals left by `cases h <;> simp_all` that still mention a caller index -/
 macro "quiesce_caller" : tactic =>
   `(tactic| first
